@@ -53,8 +53,34 @@ def build_args(fn, cfg, inputs):
     return args
 
 
+def enc(x):
+    """JSON-safe encoding of inputs (bytes and tuples survive a round trip through the replay file)"""
+    if isinstance(x, bytes):
+        return {"__bytes__": x.hex()}
+    if isinstance(x, tuple):
+        return {"__tuple__": [enc(i) for i in x]}
+    if isinstance(x, list):
+        return [enc(i) for i in x]
+    if isinstance(x, dict):
+        return {k: enc(v) for k, v in x.items()}
+    return x
+
+
+def dec(x):
+    if isinstance(x, dict):
+        if "__bytes__" in x:
+            return bytes.fromhex(x["__bytes__"])
+        if "__tuple__" in x:
+            return tuple(dec(i) for i in x["__tuple__"])
+        return {k: dec(v) for k, v in x.items()}
+    if isinstance(x, list):
+        return [dec(i) for i in x]
+    return x
+
+
 def run_once(path, lemma, cfg_index, inputs):
     """returns dict(outcome= 'pass' | 'skip' | 'check-failed' | 'exception', check=..., exc=...)"""
+    inputs = dec(inputs)
     mod = load_module(path)
     fn = getattr(mod, lemma)
     cfg = get_config(fn, cfg_index)
@@ -77,6 +103,7 @@ def run_once(path, lemma, cfg_index, inputs):
 
 
 ALPHABET = ["/", "\\", "a", "A", ".", ":", " ", "é", "b"]
+TAGS = ["a", "b", ""]
 
 
 def gen_value(rng, ann, small):
@@ -88,7 +115,7 @@ def gen_value(rng, ann, small):
     if ann == "bool":
         return rng.random() < 0.5
     if ann == "int":
-        return rng.choice([0, 1, -1, 2, 3, 5, 10, 100, rng.randint(-50, 50)])
+        return rng.choice([0, 1, 1, 2, 2, 3, 3, 4, 5, -1, 10, 100, rng.randint(-50, 50)])
     if ann == "float":
         return rng.choice([0.0, 1.0, 0.5, -1.0, 10.0, 1000.0, rng.uniform(-10, 2000)])
     if ann == "opt_float":
@@ -124,7 +151,7 @@ def search(path, lemma, cfg_index, budget, seed, want=None):
         if r["outcome"] in ("check-failed", "exception"):
             if want is None or want == r.get("check") or (want.startswith("no-exception") and r["outcome"] == "exception"
                                                           and want.split("(")[0] == r.get("check")):
-                return {"found": True, "inputs": inputs, "result": r, "check": r.get("check"), "evaluated": evaluated,
+                return {"found": True, "inputs": enc(inputs), "result": r, "check": r.get("check"), "evaluated": evaluated,
                         "nontrivial": len(nontrivial)}
     return {"found": False, "evaluated": evaluated, "nontrivial": len(nontrivial)}
 
